@@ -4,6 +4,7 @@ import PestModel.Thm.C05
 import PestModel.Thm.C06
 import PestModel.Thm.C08
 import PestModel.Lemmas.EndToEnd
+import PestModel.Lemmas.RefClosed
 /-!
 # End to end — the composition of C06, C05, C01, C02 and C08
 
@@ -168,5 +169,26 @@ theorem exRules_accepted : Accepted false PestModel.C06.exRules exOptimized wher
 
 /-- non-vacuity: the recursive list grammar of C06 is `Accepted`. -/
 example : ∃ rs, Accepted false PestModel.C06.exRules rs := ⟨exOptimized, exRules_accepted⟩
+
+/-- **An accepted, closed grammar never makes the VM panic**: for every defined start rule and every input the VM model, run on the
+optimizer's output, ends with pairs or with an error — never with a panic (`undefined rule`, `pop`/`peek was called on empty stack`,
+an index or slice out of range) and never without an answer. -/
+theorem accepted_closed_grammar_never_panics (extras : Bool) (rules : List Rule) (rs : List ORule)
+    (h : Accepted extras rules rs) (hc : closedRules rules = true) (uni : String → Option CharSet) (memchr detail : Bool)
+    (name : String) (hn : (rules.map (·.name)).contains name = true) (input : Str) :
+    ∃ fuel, match PestModel.C01.vmParse rs uni memchr detail fuel name input with
+      | .ok _ => True
+      | .err _ => True
+      | .panic => False
+      | .fuel => False := by
+  obtain ⟨r, fuel, hm, hv⟩ := accepted_grammar_parses_as_documented extras rules rs h uni memchr detail name input
+  refine ⟨fuel, ?_⟩
+  obtain ⟨_, f0, hf0⟩ := hm
+  have hns := meaning_never_stuck rules extras uni f0 name input hc hn
+  cases ho : PestModel.C01.vmParse rs uni memchr detail fuel name input with
+  | ok st => trivial
+  | err st => trivial
+  | panic => rw [ho] at hv; rw [hf0] at hns; exact hns hv
+  | fuel => rw [ho] at hv; exact hv
 
 end PestModel.E2E
